@@ -42,7 +42,7 @@ CTOR = ["dtype", "copy", "labels", "dims", "values", "axes", "name", "tol", "_in
 
 
 def budget(tier):
-    return {"quick": dict(examples=150, shards=1), "thorough": dict(examples=500, shards=16)}[tier]
+    return {"quick": dict(examples=150, shards=1), "thorough": dict(examples=2500, shards=16)}[tier]
 
 
 # ----------------------------------------------------------------------------------------------
